@@ -16,4 +16,6 @@ def check(ctx, rep):
     dar.da_rule(ctx, rep, ['parso/python/tree.py'])
     # helper results memoised on the tree (used names, and whatever is added later) are reset by the incremental parser
     treer.tree_6(ctx, rep)
+    from ..rules import dim as _dim
+    _dim.dim_1(ctx, rep)     # child positions are never computed from amounts of text
     rep.note('Not decided: the comparison with CPython\'s ast over all programs.')
